@@ -250,7 +250,27 @@ func classSpec(r *rng.R) (*lexspec.Spec, specgen.Alphabet, []rune) {
 	n := r.Range(2, 6)
 	for i := 0; i < n; i++ {
 		var x lexspec.Rx
-		switch r.Intn(8) {
+		switch r.Intn(9) {
+		case 8:
+			// negation whose leading or trailing gap is 0, 1 or 2 code points
+			// wide: the complement's pieces at the two ends of the code-point
+			// space
+			c := class()
+			k := rune(r.Intn(3))
+			if r.Chance(1, 2) {
+				lo := pick()
+				c.Items = append(c.Items, lexspec.Item{Lo: lo, Hi: 0x10FFFF - k})
+				probes = append(probes, lo-1, lo, 0x10FFFF-k-1, 0x10FFFF-k, 0x10FFFF-k+1, 0x10FFFF)
+			} else {
+				hi := pick()
+				c.Items = append(c.Items, lexspec.Item{Lo: k, Hi: hi})
+				probes = append(probes, 0, k-1, k, k+1, hi, hi+1)
+			}
+			c.Neg = true
+			if c.Set().Empty() {
+				c.Neg = false
+			}
+			x = c
 		case 0:
 			c := class()
 			c.Neg = true
